@@ -3,7 +3,7 @@ from props_table import PROPS
 
 META = {
     "C13": {
-        "text": "Lean 4 theorems over a model of the miner's control record (owner / pending owner, worker / pending key change, control addresses, beneficiary, term, pending beneficiary proposal) that follows change_owner_address, change_worker_address, confirm_change_worker_address, change_beneficiary, the quota side of withdraw_balance and process_pending_worker branch by branch. Over arbitrary histories by arbitrary callers at arbitrary epochs: owner_two_step (owner changes only by the pending owner's self-naming confirmation of a proposal that the op log shows was sent by the then-and-still owner), worker_delay (worker changes only by owner confirmation or cron at an epoch >= request epoch + 900, the request being an owner call found in the op log), beneficiary_two_sided (both approvals, each traced in the op log to a message of the nominee / the then-beneficiary, or waived because the term had nothing available at proposal time; or the beneficiary follows the owner), pending_withdrawn_only_by_owner, strangers_change_nothing, worker_controls_only_by_owner, rights_kept. Tied to the code on every run by differential execution of random interleavings of the five methods + WithdrawBalance + epoch advances with real cron ticks on the real miner actor (created by a plain CreateMiner) against the compiled model, with an independent log-keeping oracle and rights probes on rolled-back states.",
+        "text": "Lean 4 theorems over a model of the miner's control record (owner / pending owner, worker / pending key change, control addresses, beneficiary, term, pending beneficiary proposal) that follows change_owner_address, change_worker_address, confirm_change_worker_address, change_beneficiary, the quota side of withdraw_balance and process_pending_worker branch by branch. Over arbitrary histories by arbitrary callers at arbitrary epochs: owner_two_step (owner changes only by the pending owner's self-naming confirmation of a proposal that the op log shows was sent by the then-and-still owner), worker_delay (worker changes only by owner confirmation or cron at an epoch >= request epoch + 900, the request being an owner call found in the op log), beneficiary_two_sided (both approvals, each traced in the op log to a message of the nominee / the then-beneficiary, or waived because the term had nothing available at proposal time; or the beneficiary follows the owner), pending_withdrawn_only_by_owner, strangers_change_nothing, worker_controls_only_by_owner, rights_kept, pending well-formedness in every reachable state (pendingWF_run), withdraw_within_term, and completion of the three handovers in every state (owner_/worker_/beneficiary_handover_completes, the worker one with both sides of the 900-epoch boundary). Tied to the code on every run by differential execution of random interleavings of the five methods + WithdrawBalance + epoch advances with real cron ticks on the real miner actor (created by a plain CreateMiner) against the compiled model, with an independent log-keeping oracle and rights probes on rolled-back states.",
         "design_ref": "DESIGN.md §7 C13",
         "note": "Trusted: Lean kernel (axioms propext, Classical.choice, Quot.sound only); the hand-written model's tie to the code is differential (bounded by generator coverage reported in evidence); harness VM in place of ref-fvm; address resolution and the non-control parts of withdraw_balance are environment inputs. The constant 900 (worker_key_change_delay) and 10 (max_control_addresses) are re-extracted from runtime/src/runtime/policy.rs on every run and stated literally in the theorems.",
         "technique": "Lean 4 invariant proofs with ghost history over the op log + differential correspondence of model and real actor",
